@@ -290,6 +290,47 @@ def gen_power_history(rng, tag):
     return ({"modules": mods, "ops": ops1}, {"modules": mods, "ops": ops2}, finals, final_start, after_flush, base_start, len(defs), len(decls))
 
 
+def gen_naming_history(rng, tag):
+    """a unit of a derived dimension with two statements of its size - one against a product of shipped units that has no
+    name of its own (778.17 ft*lbf), one against a named unit (1055.06 J) - whose numbers differ in the sixth digit, as
+    handbook numbers do.  Questions are asked; then the program gives the product a name (Unit.derive: a definition, not an
+    equivalence - nothing is re-declared); the same questions are asked again.  A fresh process in which the name was
+    given before anything was asked answers the same"""
+    fam = rng.choice([
+        ("energy", ["mul", ["u", "foot"], ["u", "pound-force"]], 778.17, ["u", "joule"], 1055.06, [["div", None, ["u", "hour"]], ["u", "watt"]]),
+        ("energy", ["mul", ["u", "newton"], ["u", "meter"]], 4.1868, ["u", "calorie"], 1.00001, [["div", None, ["u", "second"]], ["u", "watt"]]),
+        ("pressure", ["div", ["u", "pound-force"], ["pow", ["u", "foot"], 2]], 2088.5, ["u", "pascal"], 100000.0, [["mul", None, ["pow", ["u", "meter"], 2]], ["u", "newton"]]),
+        ("power", ["div", ["mul", ["u", "foot"], ["u", "pound-force"]], ["u", "second"]], 550.0, ["u", "watt"], 745.7, [["mul", None, ["u", "hour"]], ["u", "joule"]]),
+    ])
+    dim, product, k1, named, k2, (wrap, target) = fam
+    mine = f"zq{tag}nm"
+    defs = [["define", mine, mine, ["dimname", dim]]]
+    decls = [["declare", ["u", mine], ["f", float(k1).hex()], product], ["declare", ["u", mine], ["f", float(k2).hex()], named]]
+    if rng.random() < 0.3:
+        decls.reverse()
+    src = [wrap[0], ["u", mine], wrap[2]]
+    questions = [["convert", ["f", float(x).hex()], src, target] for x in (1, 2.5)] + [["convert", ["i", 3], target, src], ["convert", ["i", 1], ["u", mine], named],
+                                                                                         ["eq", ["i", 1], src, ["f", (0.293).hex()], target], ["lt", ["i", 1], src, ["i", 1], target]]
+    naming = ["name", product, f"zq{tag}product", f"zq{tag}pr"]
+    ops1 = list(defs) + list(decls)
+    for _ in range(rng.randint(1, 4)):
+        ops1.append(rng.choice(questions))
+    ops1.append(naming)
+    for _ in range(rng.randint(0, 3)):
+        ops1.append(rng.choice(questions))
+    finals = list(questions)
+    final_start = len(ops1)
+    ops1 += finals
+    ops1 += [["cache_info"], ["flush"]]
+    after_flush = len(ops1)
+    ops1 += finals
+    ops2 = list(defs) + list(decls) + [naming]
+    base_start = len(ops2)
+    ops2 += finals
+    mods = ["si", "us", "avoirdupois", "energy"]
+    return ({"modules": mods, "ops": ops1}, {"modules": mods, "ops": ops2}, finals, final_start, after_flush, base_start, len(defs), len(decls))
+
+
 def gen_ring_history(rng, tag):
     """handbook numbers seldom close exactly: a ring of the user's units (r0 = k0 r1, r1 = k1 r2, ..., r(n-1) = K r0) whose
     last statement is a few 1e-5 off what the others multiply out to, with a few units hanging off the ring.  Two routes
@@ -420,7 +461,10 @@ def run(ctx):
     n = ctx.scale(128, 3000)
     cases = []
     for i in range(n):
-        if i % 8 == 6:
+        if i % 8 == 2:
+            cases.append(gen_naming_history(rng, tag=f"c08s{ctx.seed}i{i}"))
+            ctx.count("histories_in_which_an_anonymous_product_gets_a_name_between_questions")
+        elif i % 8 == 6:
             cases.append(gen_ring_history(rng, tag=f"c08s{ctx.seed}i{i}"))
             ctx.count("histories_over_a_ring_of_equivalences_that_does_not_close_exactly")
         elif i % 4 == 1:
